@@ -1,20 +1,27 @@
 #!/bin/bash
-# seed_matrix.sh : for every seed, which claimed property checks report a NEW violation on the patched tree; updates seeded/*/meta.json
+# seed_matrix.sh [seed ...] : for every seed (default: all), which claimed properties report a NEW violation key on the
+# patched tree (one load per seed via `lhcheck -keys`); updates seeded/*/meta.json and prints one line per seed.
 cd /verif
-PROPS=$(python3 -c "import json;print(' '.join(c['property_id'] for c in json.load(open('MANIFEST.json'))['checks']))")
-for s in $(ls seeded); do
-  own=$(python3 -c "import json;print(json.load(open('seeded/$s/meta.json'))['property'])")
-  out=$(tools/check_seed.sh $s $PROPS 2>&1)
-  det=$(echo "$out" | grep "DETECTED by" | sed 's/.*DETECTED by //' | tr '\n' ' ')
-  keys=$(echo "$out" | grep "^    " | sed 's/^ *//' | sort -u | tr '\n' ';')
-  echo "$s own=$own detected_by=[$det]"
-  python3 - "$s" "$det" "$keys" <<'PY'
+SEEDS="$@"; [ -z "$SEEDS" ] && SEEDS=$(ls seeded)
+bin/lhcheck -keys | sort -u > /tmp/lh_base_keys.txt
+for s in $SEEDS; do
+  D=/verif/seeded/$s
+  WT=/tmp/lhseedm_$$_$(echo $s | tr -c 'A-Za-z0-9\n' '_')
+  mkdir -p $WT && rsync -a --exclude .git /repo/ $WT/
+  if ! (cd $WT && patch -p1 -s --no-backup-if-mismatch < $D/patch.diff >/dev/null 2>&1); then echo "$s: patch does not apply"; rm -rf $WT; continue; fi
+  bin/lhcheck -keys -repo $WT | sort -u > /tmp/lh_seed_keys.txt
+  rm -rf $WT
+  new=$(comm -13 /tmp/lh_base_keys.txt /tmp/lh_seed_keys.txt)
+  python3 - "$s" "$new" <<'PY'
 import json,sys
-s,det,keys=sys.argv[1:4]
+s,new=sys.argv[1],sys.argv[2]
 p='/verif/seeded/%s/meta.json'%s
 m=json.load(open(p))
-m['detected_by']=det.split()
-m['violation_keys']=[k for k in keys.split(';') if k]
+props=sorted({l.split()[1] for l in new.splitlines() if l.startswith('KEY ')})
+keys=sorted({l.split(None,3)[3] for l in new.splitlines() if l.startswith('KEY ')})
+m['detected_by']=props
+m['violation_keys']=keys
 json.dump(m,open(p,'w'),indent=1,ensure_ascii=False)
+print("%s own=%s detected_by=%s%s"%(s,m['property'],props,("  keys="+"; ".join(keys)[:160]) if keys else ""))
 PY
 done
